@@ -709,7 +709,11 @@ class Project:
         if op in ("branch", "detach", "checkout", "merge") and self.commits and not self.disabled:
             self.g("checkout", "-q", "--", ".", check=False)  # drop uncommitted edits before moving HEAD
         if op == "init":
-            self.g("init", "-q", "-b", "main")
+            if len(st) > 1 and st[1] == "separate":
+                # the repository data lives elsewhere and `.git` is a FILE (as in linked worktrees and submodules)
+                self.g("init", "-q", "-b", "main", "--separate-git-dir", self.root + "-gitdir")
+            else:
+                self.g("init", "-q", "-b", "main")
             self.git_on = True
         elif op == "commit":
             h = self.head()
@@ -1114,6 +1118,8 @@ def part_e2e(chk, tier, only=None):
         scripts = [[tuple(s) if s[0] != "run" else ("run", s[1]) for s in only["script"]]]
     else:
         scripts = [script_tags(), script_tags2(), script_merge(), script_modes(), script_modes2(), script_foreign()]
+        # the same histories with `.git` being a file (linked worktree / submodule / --separate-git-dir layouts)
+        scripts += [[("init", "separate") if st == ("init",) else st for st in sc] for sc in (script_merge(), script_tags())]
         nrand = 4 if tier == "quick" else 60
         for _ in range(nrand):
             scripts.append(script_random(rng, 12 if tier == "quick" else 22))
